@@ -362,7 +362,7 @@ class ProgStream(Stream):
     def compare_view(self, case, obs):
         an = obs["an"]
         return {"variables": an["variables"], "globals": an["globals"], "locals": an["locals"], "filters": an["filters"],
-                "tags": an["tags"], "unreached": [], "theorem_instance": True, "first_sentence_instance": True, "partial_keys_as_modelled": bool(obs.get("keys_ok", True))}
+                "tags": an["tags"], "unreached": [], "theorem_instance": True, "theorem2_instance": True, "first_sentence_instance": True, "partial_keys_as_modelled": bool(obs.get("keys_ok", True))}
 
     def canon_model(self, case, mobs):
         if not isinstance(mobs, dict) or "error" in mobs:
@@ -375,6 +375,7 @@ class ProgStream(Stream):
             "tags": sorted(mobs["tags"]),
             "unreached": mobs["unreached"],
             "theorem_instance": (not mobs["hyp"]) or mobs["sound"],
+            "theorem2_instance": (not mobs["hyp2"]) or mobs["sound"],
             "first_sentence_instance": mobs["first"],
             "partial_keys_as_modelled": True,
         }
